@@ -72,20 +72,26 @@ func (db *DB) Backup(path string) error {
 
 		dstFile, err := dstFS.OpenFile(name, os.O_CREATE|os.O_RDWR|os.O_TRUNC, mode)
 		if err != nil {
+			_ = srcFile.Close()
 			return err
 		}
 
 		if srcSize, ok := activeSegmentSizes[seg.id]; ok {
 			if _, err := io.CopyN(dstFile, srcFile, srcSize); err != nil {
+				_ = srcFile.Close()
+				_ = dstFile.Close()
 				return err
 			}
 		} else {
 			if _, err := io.Copy(dstFile, srcFile); err != nil {
+				_ = srcFile.Close()
+				_ = dstFile.Close()
 				return err
 			}
 		}
 
 		if err := srcFile.Close(); err != nil {
+			_ = dstFile.Close()
 			return err
 		}
 		if err := dstFile.Close(); err != nil {
